@@ -153,6 +153,7 @@ def run_inproc(argv, world_json=None, trace=None, plan=None, cwd=None,
     vtrace.reset()
     vworld_rt.forget_worlds()
     vworld_rt.EXEC_COUNT.clear()
+    vworld_rt.RAN_IN_PROCESS.clear()
     try:
         import ztr_monitor
         ztr_monitor.reset_run_state()
